@@ -50,6 +50,7 @@ func (c10) Classes() []sim.Class {
 			sim.Class{Name: "resources", Engine: e, Quick: 300, Thorough: 12000, Instrumented: true, RunTimeoutSec: 120},
 			// several calls in flight on one module when close-on-context-done closes it: baton-scheduled
 			sim.Class{Name: "async-close-concurrent", Engine: e, Quick: 400, Thorough: 16000, Instrumented: true, RunTimeoutSec: 120, DeathIsViolation: true},
+			sim.Class{Name: "async-close-finishing", Engine: e, Quick: 600, Thorough: 24000, Instrumented: true, RunTimeoutSec: 120, DeathIsViolation: true},
 		)
 	}
 	return cs
@@ -698,6 +699,8 @@ func (c10) Run(t *tape.Tape, cfg sim.Config) (res sim.Result) {
 		return resourcesRelease(t, cfg)
 	case "async-close-concurrent":
 		return asyncCloseConcurrent(t, cfg)
+	case "async-close-finishing":
+		return asyncCloseFinishing(t, cfg)
 	}
 	ctx := context.Background()
 	var rc wazero.RuntimeConfig
